@@ -25,6 +25,7 @@ import (
 	"sort"
 	"strings"
 	"sync"
+	"sync/atomic"
 	"testing"
 	"time"
 
@@ -1014,6 +1015,68 @@ func runShard(pl plan, seed int64, shard, of int) *collector {
 	return c
 }
 
+// concurrentLRU: the statement says "however many calls it has served" - concurrent histories included.
+// G goroutines hammer one cache with GetOrCreate (new and resident keys, create callbacks that yield),
+// Remove and Clear; at every quiescent point (all goroutines joined) the hook must show a consistent list
+// with at most capacity entries and at most capacity+1 nodes.
+func concurrentLRU(run *report.Run, seed int64, rounds int) {
+	for r := 0; r < rounds; r++ {
+		rng := rand.New(rand.NewSource(seed*7_000_003 + int64(r)))
+		capacity := 1 + rng.Intn(8)
+		G := 2 + rng.Intn(7)
+		var created atomic.Int64
+		c, err := lru.NewCache[int, int](capacity, func(k int) (int, error) {
+			if k%3 == 0 {
+				runtime.Gosched()
+			}
+			return int(created.Add(1)), nil
+		}, func(int, int) {})
+		if err != nil {
+			run.Inconclusive("NewCache: " + err.Error())
+			return
+		}
+		for burst := 0; burst < 6; burst++ {
+			var wg sync.WaitGroup
+			for g := 0; g < G; g++ {
+				wg.Add(1)
+				go func(g int) {
+					defer wg.Done()
+					gr := rand.New(rand.NewSource(seed ^ int64(r*1000+burst*100+g)))
+					for i := 0; i < 40; i++ {
+						switch x := gr.Intn(20); {
+						case x < 15:
+							_, _ = c.GetOrCreate(gr.Intn(3 * capacity)) // mostly new keys: evictions back to back
+						case x < 19:
+							c.Remove(gr.Intn(3 * capacity))
+						default:
+							c.Clear()
+						}
+					}
+				}(g)
+			}
+			wg.Wait()
+			run.Eval(1)
+			run.Add("concurrent_quiescent_points", 1)
+			nodes, length, infl, herr := c.VerifRetained()
+			w := map[string]any{"kind": "concurrent-lru", "seed": seed, "round": r, "capacity": capacity, "goroutines": G}
+			switch {
+			case herr != nil:
+				run.Violation("lru/concurrent/structure", fmt.Sprintf("after a concurrent burst the recency list is inconsistent: %v", herr), w)
+				return
+			case length > capacity:
+				run.Violation("lru/concurrent/over-capacity", fmt.Sprintf("after a concurrent burst (%d goroutines) the cache of capacity %d holds %d entries", G, capacity, length), w)
+				return
+			case nodes > capacity+1:
+				run.Violation("lru/concurrent/retained-nodes", fmt.Sprintf("after a concurrent burst %d nodes are reachable, capacity+1 = %d", nodes, capacity+1), w)
+				return
+			case infl != 0:
+				run.Violation("lru/concurrent/inflight-residue", fmt.Sprintf("no call is in progress but the in-flight table has %d entries", infl), w)
+				return
+			}
+		}
+	}
+}
+
 func TestCheck(t *testing.T) {
 	// child process: one shard (see C10: every fresh Map owns a sync.Pool whose first use takes a
 	// process-wide lock; single-threaded child processes do not contend on it)
@@ -1036,8 +1099,8 @@ func TestCheck(t *testing.T) {
 
 	run := report.New("C11", "exploration")
 	defer run.Finish(t)
-	run.Rule("(A) iterable.Map: every legal sequence over {Add(k absent), Remove(k present), First, NewIterator (<=3 open), It[i].HasNext, It[i].Next, It[i].Close}, k in {a,b,c} up to key renaming, of length 1..depth, and seeded random histories of 1000 calls over 2-5 keys and up to 8 iterators (Add/Remove of any key); each followed by closing every open iterator (ascending and descending slot order). Through VerifWalk after every call: list consistent, nodes <= Len()+1+j and removed-but-linked <= j with j iterators open; with none open nodes == Len()+1, no removed entry linked, reference counts 0. (B) lru.NewCache / lru.NewECache: for every capacity 1..64 seven seeded history classes (GetOrCreate;Clear cycles, Clear-heavy, GetOrCreate;Remove cycles, Remove-heavy, eviction-heavy, hit-heavy, mixed; with injected create errors); through VerifRetained after every call: recency list consistent and nodes <= capacity+1. distinct = distinct observations (A: call kind, Len, open iterators, nodes, removed-but-linked, reference sum; B: capacity, kind of call as it turned out, empty/partial/full, nodes-resident-1)")
-	run.Assume("one goroutine; iterators are never used after Close; no iterator of the harness is open on the caches' internal map")
+	run.Rule("(A) iterable.Map: every legal sequence over {Add(k absent), Remove(k present), First, NewIterator (<=3 open), It[i].HasNext, It[i].Next, It[i].Close}, k in {a,b,c} up to key renaming, of length 1..depth, and seeded random histories of 1000 calls over 2-5 keys and up to 8 iterators (Add/Remove of any key); each followed by closing every open iterator (ascending and descending slot order). Through VerifWalk after every call: list consistent, nodes <= Len()+1+j and removed-but-linked <= j with j iterators open; with none open nodes == Len()+1, no removed entry linked, reference counts 0. (C) concurrent histories: 2-8 goroutines hammer one cache, at every quiescent point entries <= capacity, nodes <= capacity+1, no in-flight residue. (B) lru.NewCache / lru.NewECache: for every capacity 1..64 seven seeded history classes (GetOrCreate;Clear cycles, Clear-heavy, GetOrCreate;Remove cycles, Remove-heavy, eviction-heavy, hit-heavy, mixed; with injected create errors); through VerifRetained after every call: recency list consistent and nodes <= capacity+1. distinct = distinct observations (A: call kind, Len, open iterators, nodes, removed-but-linked, reference sum; B: capacity, kind of call as it turned out, empty/partial/full, nodes-resident-1)")
+	run.Assume("parts (A) and (B): one goroutine; iterators are never used after Close; no iterator of the harness is open on the caches' internal map")
 	run.Assume("a call that panics ends the history without a verdict here (panics are C10's subject); such histories are counted and make the run inconclusive")
 	run.Assume("'cost does not grow with history length' is decided through the node count (every operation's work is bounded by the list it walks); the timing comparison is an observation only")
 
@@ -1142,6 +1205,7 @@ func TestCheck(t *testing.T) {
 	for _, s := range samples {
 		run.Sample(s)
 	}
+	concurrentLRU(run, run.Seed(), run.Pick(300, 6000))
 	timing(run, pl.timingCycles)
 }
 
